@@ -15,7 +15,7 @@ section Cache
 theorem filter_append_singleton_length {α} (p : α → Bool) (l : List α) (a : α) :
     ((l ++ [a]).filter p).length = (l.filter p).length + (if p a then 1 else 0) := by
   rw [List.filter_append, List.length_append]
-  by_cases h : p a <;> simp [List.filter_cons, h]
+  by_cases h : p a <;> simp [h]
 
 theorem filter_erase_length {α} [BEq α] [LawfulBEq α] (p : α → Bool) (l : List α) (a : α) (h : a ∈ l) :
     ((l.erase a).filter p).length + (if p a then 1 else 0) = (l.filter p).length := by
@@ -25,7 +25,7 @@ theorem filter_erase_length {α} [BEq α] [LawfulBEq α] (p : α → Bool) (l : 
     by_cases hb : b = a
     · subst hb
       rw [List.erase_cons_head]
-      by_cases hp : p b <;> simp [List.filter_cons, hp]
+      by_cases hp : p b <;> simp [hp]
     · have hne : (b == a) = false := by simpa using hb
       rw [List.erase_cons_tail (by simpa using hb)]
       have ha : a ∈ t := by
@@ -33,7 +33,7 @@ theorem filter_erase_length {α} [BEq α] [LawfulBEq α] (p : α → Bool) (l : 
         | head => exact absurd rfl hb
         | tail _ h => exact h
       have := ih ha
-      by_cases hp : p b <;> simp [List.filter_cons, hp] <;> omega
+      by_cases hp : p b <;> simp [hp] <;> omega
 
 theorem tickLegal_iff (s : HCache) (ev : List Name) :
     s.toVCache.tickLegal ev = true ↔ ∀ f ∈ ev, ∃ e ∈ s.entries, e.field = f ∧ e.refs ≤ 0 := by
@@ -102,8 +102,8 @@ theorem inv_open (S : Setup) (s : HCache) (f : Name) (ex : List Nat) (hi : Inv s
       · simp only [hf, if_true, filter_append_singleton_length, decide_true]
         simp only [hf] at this; omega
       · simp only [hf, if_false, filter_append_singleton_length]
-        have : (decide (f = e.field)) = false := by simpa using fun h => hf h.symm
-        simp only [this]; simpa using hi.refsEq e he
+        have hd : (decide (f = e.field)) = false := by simpa using fun h => hf h.symm
+        simp only [hd]; simpa using this
     · intro _ h hh
       simp only [List.mem_append, List.mem_singleton] at hh
       rcases hh with hh | rfl
@@ -167,6 +167,271 @@ theorem inv_open (S : Setup) (s : HCache) (f : Name) (ex : List Nat) (hi : Inv s
       rcases Nat.lt_succ_iff_lt_or_eq.1 hg with h | rfl
       · exact List.mem_append_left _ (hi.cover g h)
       · exact List.mem_append_right _ (List.mem_singleton.2 rfl)
+
+theorem inv_close (s : HCache) (h : Handle) (hi : Inv s) (hl : h ∈ s.handles) :
+    Inv (s.closeHandle h) := by
+  unfold HCache.closeHandle
+  have hfields : (s.entries.map (fun e => if e.field = h.field then { e with refs := e.refs - 1 } else e)).map (·.field)
+      = s.entries.map (·.field) := by
+    rw [List.map_map]; apply List.map_congr_left; intro a _; simp only [Function.comp]; split <;> rfl
+  have hgens : (s.entries.map (fun e => if e.field = h.field then { e with refs := e.refs - 1 } else e)).map (·.gen)
+      = s.entries.map (·.gen) := by
+    rw [List.map_map]; apply List.map_congr_left; intro a _; simp only [Function.comp]; split <;> rfl
+  constructor
+  · simpa only [hfields] using hi.fieldsNodup
+  · intro e' he'
+    simp only [List.mem_map] at he'
+    obtain ⟨e, he, rfl⟩ := he'
+    have h1 := hi.refsEq e he
+    simp only [HCache.openHandles] at h1 ⊢
+    by_cases hf : e.field = h.field
+    · have h2 := filter_erase_length (fun h' : Handle => decide (h'.field = h.field)) s.handles h hl
+      simp only [decide_true, if_true] at h2
+      simp only [hf, if_true] at h1 ⊢
+      omega
+    · have h2 := filter_erase_length (fun h' : Handle => decide (h'.field = e.field)) s.handles h hl
+      have hd : decide (h.field = e.field) = false := by simpa using fun x => hf x.symm
+      simp only [hd] at h2
+      simp only [hf, if_false]
+      simp at h2; omega
+  · intro hc h' hh'
+    obtain ⟨e, he, h1, h2, h3⟩ := hi.handleEntry hc h' (List.mem_of_mem_erase hh')
+    refine ⟨_, List.mem_map.2 ⟨e, he, rfl⟩, ?_⟩
+    split <;> exact ⟨h1, h2, h3⟩
+  · intro hc; simp [hi.closedEmpty hc]
+  · simpa only [hgens] using hi.allNodup
+  · simpa only [hgens] using hi.allLt
+  · simpa only [hgens] using hi.cover
+
+theorem filter_partition_perm {α} (p : α → Bool) (l : List α) :
+    (l.filter p ++ l.filter (fun a => !p a)).Perm l := by
+  induction l with
+  | nil => simp
+  | cons a t ih =>
+    by_cases h : p a
+    · simp only [List.filter_cons, h, if_true, Bool.not_true, List.cons_append]
+      exact List.Perm.cons a ih
+    · simp only [List.filter_cons, h, Bool.not_false, if_true]
+      exact (List.perm_middle).trans (List.Perm.cons a ih)
+
+/-- a legal tick never evicts the entry of a field with an open handle -/
+theorem tick_keeps_open (s : HCache) (ev : List Name) (hi : Inv s)
+    (hl : s.toVCache.tickLegal ev = true) (e : IEntry) (he : e ∈ s.entries)
+    (ho : 0 < s.openHandles e.field) : e.field ∉ ev := by
+  intro hmem
+  obtain ⟨e', he', hf, hr⟩ := (tickLegal_iff s ev).1 hl _ hmem
+  have : e' = e := entry_unique hi.fieldsNodup he' he hf
+  subst this
+  have := hi.refsEq e' he'
+  omega
+
+theorem inv_tick (s : HCache) (ev : List Name) (hi : Inv s)
+    (hl : s.toVCache.tickLegal ev = true) : Inv (s.tick ev) := by
+  unfold HCache.tick
+  have hperm : (s.released ++ (s.entries.filter (fun e => ev.contains e.field)).map (·.gen) ++
+      (s.entries.filter (fun e => !ev.contains e.field)).map (·.gen)).Perm
+      (s.released ++ s.entries.map (·.gen)) := by
+    rw [List.append_assoc, ← List.map_append]
+    exact List.Perm.append_left _ ((filter_partition_perm _ _).map _)
+  constructor
+  · exact hi.fieldsNodup.sublist ((List.filter_sublist).map _)
+  · intro e he
+    exact hi.refsEq e (List.mem_filter.1 he).1
+  · intro hc h hh
+    obtain ⟨e, he, h1, h2, h3⟩ := hi.handleEntry hc h hh
+    refine ⟨e, List.mem_filter.2 ⟨he, ?_⟩, h1, h2, h3⟩
+    have hpos : 0 < s.openHandles e.field := by
+      simp only [HCache.openHandles]
+      apply List.length_pos_of_mem (a := h)
+      exact List.mem_filter.2 ⟨hh, by simpa using h1.symm⟩
+    have := tick_keeps_open s ev hi hl e he hpos
+    simpa using this
+  · intro hc; simp [hi.closedEmpty hc]
+  · exact hperm.symm.nodup hi.allNodup
+  · intro g hg; exact hi.allLt g (hperm.mem_iff.1 hg)
+  · intro g hg; exact hperm.mem_iff.2 (hi.cover g hg)
+
+theorem inv_clear (s : HCache) (hi : Inv s) : Inv s.clear := by
+  unfold HCache.clear
+  constructor
+  · simp
+  · intro e he; cases he
+  · intro hc; cases hc
+  · intro _; rfl
+  · simpa using hi.allNodup
+  · simpa using hi.allLt
+  · simpa using hi.cover
+
+theorem inv_step (S : Setup) (s : HCache) (e : Ev) (hi : Inv s) (hl : s.legal e = true) :
+    Inv (s.step S e) := by
+  cases e with
+  | «open» f ex => exact inv_open S s f ex hi (by simpa [HCache.legal] using hl)
+  | close h => exact inv_close s h hi (by simpa [HCache.legal] using hl)
+  | tick ev => exact inv_tick s ev hi (by simpa [HCache.legal] using hl)
+  | clear => exact inv_clear s hi
+
+theorem inv_run (S : Setup) (evs : List Ev) : ∀ (s s' : HCache), Inv s → run S s evs = some s' → Inv s' := by
+  induction evs with
+  | nil => intro s s' hi h; simp only [run, Option.some.injEq] at h; exact h ▸ hi
+  | cons e es ih =>
+    intro s s' hi h
+    simp only [run] at h
+    split at h
+    · rename_i hl; exact ih _ _ (inv_step S s e hi hl) h
+    · cases h
+
+/-- created = released + live, from the ghost invariant -/
+theorem inv_count (s : HCache) (hi : Inv s) : s.created = s.released.length + s.entries.length := by
+  have h1 : (s.released ++ s.entries.map (·.gen)).length ≤ (List.range s.created).length :=
+    hi.allNodup.length_le_of_subset (fun g hg => List.mem_range.2 (hi.allLt g hg))
+  have h2 : (List.range s.created).length ≤ (s.released ++ s.entries.map (·.gen)).length :=
+    List.nodup_range.length_le_of_subset (fun g hg => hi.cover g (List.mem_range.1 hg))
+  simp only [List.length_append, List.length_map, List.length_range] at h1 h2
+  omega
+
+/-! the plain `VCache` follows the instrumented one -/
+
+theorem toVCache_step (S : Setup) (s : HCache) (e : Ev) :
+    (s.step S e).toVCache = vstep s.toVCache e := by
+  cases e with
+  | «open» f ex =>
+    simp only [HCache.step, vstep, HCache.open, VCache.open, HCache.toVCache]
+    by_cases h : s.entries.any (fun e => e.field = f)
+    · have h' : (s.entries.map (fun e => ({ field := e.field, refs := e.refs } : CacheEntry))).any (fun e => e.field = f) = true := by
+        simpa [List.any_map] using h
+      obtain ⟨e0, he0⟩ : ∃ e0, s.entries.find? (fun e => e.field = f) = some e0 := by
+        cases hfe : s.entries.find? (fun e => decide (e.field = f)) with
+        | some e0 => exact ⟨e0, rfl⟩
+        | none =>
+          rw [List.find?_eq_none] at hfe
+          simp only [List.any_eq_true] at h
+          obtain ⟨x, hx, hxf⟩ := h
+          exact absurd hxf (hfe x hx)
+      simp only [he0, h', if_true, List.map_map]
+      congr 1
+      apply List.map_congr_left
+      intro a _
+      simp only [Function.comp]
+      split <;> rfl
+    · have h' : (s.entries.map (fun e => ({ field := e.field, refs := e.refs } : CacheEntry))).any (fun e => e.field = f) = false := by
+        simpa [List.any_map] using h
+      have hfe : s.entries.find? (fun e => decide (e.field = f)) = none := by
+        rw [List.find?_eq_none]
+        intro x hx hxf
+        exact h (List.any_eq_true.2 ⟨x, hx, hxf⟩)
+      simp [hfe, h']
+  | close h =>
+    simp only [HCache.step, vstep, HCache.closeHandle, VCache.closeHandle, HCache.toVCache, List.map_map]
+    congr 1
+    apply List.map_congr_left
+    intro a _
+    simp only [Function.comp]
+    split <;> rfl
+  | tick ev =>
+    simp only [HCache.step, vstep, HCache.tick, VCache.tick, HCache.toVCache, List.filter_map,
+      List.length_append, List.length_map]
+    rfl
+  | clear =>
+    simp [HCache.step, vstep, HCache.clear, VCache.clear, HCache.toVCache]
+
+/-- `created = released + live` on the plain cache, for EVERY event (no legality needed) -/
+theorem vcount_step (c : VCache) (e : Ev) (h : c.created = c.released + c.live) :
+    (vstep c e).created = (vstep c e).released + (vstep c e).live := by
+  cases e with
+  | «open» f ex =>
+    simp only [vstep, VCache.open, VCache.live] at h ⊢
+    split <;> simp <;> omega
+  | close hd => simpa [vstep, VCache.closeHandle, VCache.live] using h
+  | tick ev =>
+    simp only [vstep, VCache.tick, VCache.live] at h ⊢
+    have := (filter_partition_perm (fun e : CacheEntry => ev.contains e.field) c.entries).length_eq
+    simp only [List.length_append] at this
+    omega
+  | clear => simp only [vstep, VCache.clear, VCache.live] at h ⊢; simp; omega
+
+theorem vcount_foldl (evs : List Ev) : ∀ c : VCache, c.created = c.released + c.live →
+    (evs.foldl vstep c).created = (evs.foldl vstep c).released + (evs.foldl vstep c).live := by
+  induction evs with
+  | nil => intro c h; exact h
+  | cons e es ih => intro c h; exact ih _ (vcount_step c e h)
+
+theorem run_toVCache (S : Setup) (evs : List Ev) : ∀ (s s' : HCache), run S s evs = some s' →
+    s'.toVCache = evs.foldl vstep s.toVCache := by
+  induction evs with
+  | nil => intro s s' h; simp only [run, Option.some.injEq] at h; simp [h]
+  | cons e es ih =>
+    intro s s' h
+    simp only [run] at h
+    split at h
+    · rw [List.foldl_cons, ← toVCache_step S]; exact ih _ _ h
+    · cases h
+
+/-- with the complete table, what entries cache and what handles captured is a function of
+    the segment (and, for the exclusion list, of the handle's own `except`) -/
+structure MapsOK (seg : Name → Content) (s : HCache) : Prop where
+  entries : ∀ e ∈ s.entries, e.vmap = vecDocIDMap (seg e.field)
+  handles : ∀ h ∈ s.handles, h.vmap = vecDocIDMap (seg h.field) ∧
+    h.excl = vecIDsToExclude (vecDocIDMap (seg h.field)) h.ex
+
+theorem mapsOK_step (seg : Name → Content) (s : HCache) (e : Ev) (hm : MapsOK seg s) :
+    MapsOK seg (s.step (Setup.fixed seg) e) := by
+  cases e with
+  | «open» f ex =>
+    simp only [HCache.step, HCache.open]
+    split
+    · rename_i e0 hfind
+      have he0 : e0 ∈ s.entries := List.mem_of_find?_eq_some hfind
+      have he0f : e0.field = f := by simpa using List.find?_some hfind
+      have hv := hm.entries e0 he0
+      constructor
+      · intro e' he'
+        obtain ⟨e, he, rfl⟩ := List.mem_map.1 he'
+        have := hm.entries e he
+        split <;> simpa using this
+      · intro h hh
+        simp only [List.mem_append, List.mem_singleton] at hh
+        rcases hh with hh | rfl
+        · exact hm.handles h hh
+        · simp only [hv, he0f, and_self]
+    · constructor
+      · intro e he
+        simp only [List.mem_append, List.mem_singleton] at he
+        rcases he with he | rfl
+        · exact hm.entries e he
+        · rfl
+      · intro h hh
+        simp only [List.mem_append, List.mem_singleton] at hh
+        rcases hh with hh | rfl
+        · exact hm.handles h hh
+        · exact ⟨rfl, rfl⟩
+  | close h =>
+    simp only [HCache.step, HCache.closeHandle]
+    constructor
+    · intro e' he'
+      obtain ⟨e, he, rfl⟩ := List.mem_map.1 he'
+      have := hm.entries e he
+      split <;> simpa using this
+    · intro h' hh'; exact hm.handles h' (List.mem_of_mem_erase hh')
+  | tick ev =>
+    simp only [HCache.step, HCache.tick]
+    exact ⟨fun e he => hm.entries e (List.mem_filter.1 he).1, hm.handles⟩
+  | clear =>
+    simp only [HCache.step, HCache.clear]
+    exact ⟨fun e he => (by cases he), hm.handles⟩
+
+theorem mapsOK_run (seg : Name → Content) (evs : List Ev) : ∀ (s s' : HCache), MapsOK seg s →
+    run (Setup.fixed seg) s evs = some s' → MapsOK seg s' := by
+  induction evs with
+  | nil => intro s s' hi h; simp only [run, Option.some.injEq] at h; exact h ▸ hi
+  | cons e es ih =>
+    intro s s' hi h
+    simp only [run] at h
+    split at h
+    · exact ih _ _ (mapsOK_step seg s e hi) h
+    · cases h
+
+theorem mapsOK_init (seg : Name → Content) : MapsOK seg {} := by
+  constructor <;> simp
 
 end Cache
 
